@@ -530,6 +530,21 @@ def quiescent_check(world, viewer, expected_keys=None, expected_layers=None, sta
     for name, h, ds in data:
         world.ctx.count("data_picker_checks:%s:%s" % (kind, name))
         out += check_data_picker(h, ds, name)
+    # image viewer: the axis pickers offer exactly the world axes of the reference when it has coordinates and
+    # exactly its pixel axes when it has not (stated without looking at the pickers' own flags)
+    if kind == "image" and viewer.state.reference_data is not None and viewer.state.reference_data.ndim >= 2:
+        ref = viewer.state.reference_data
+        want = list(ref.world_component_ids) if ref.coords is not None else list(ref.pixel_component_ids)
+        for pname, h in (("x_att_world", viewer.state.xw_att_helper), ("y_att_world", viewer.state.yw_att_helper)):
+            gotc = [c for c in h.choices if not isinstance(c, ChoiceSeparator)]
+            world.ctx.count("image_axis_picker_checks:%s" % ("coords" if ref.coords is not None else "no_coords"))
+            if idsorted(gotc) != idsorted(want):
+                extra = [c for c in gotc if not is_in(c, want)]
+                kinds = sorted(set(component_class(c, [ref]) for c in extra))
+                out.append(("image_axis_picker_offers_wrong_axes", {"picker": pname, "reference_has_coords": ref.coords is not None,
+                                                                    "extra": "+".join(kinds) or "none",
+                                                                    "missing": len([c for c in want if not is_in(c, gotc)]) > 0},
+                            {"got": [lab(c) for c in gotc], "expected": [lab(c) for c in want]}))
     # (X) image axes
     if kind in ("image", "profile"):
         for ls in viewer.state.layers:
@@ -593,7 +608,7 @@ def gen_viewer_op(world, rng):
              ("update_values", 2), ("coords_change", 1), ("clear_collection", 1), ("many_groups", 2), ("add_link", 6),
              ("remove_link", 1), ("readd_after_emptied", 5), ("remove_all_data_layers", 4), ("remove_linked_dataset", 4),
              ("ungrouped_shared_state", 6), ("ungrouped_twin_on_one_dataset", 1), ("ungrouped_new_subset", 2),
-             ("delete_ungrouped", 6)]
+             ("delete_ungrouped", 6), ("remove_many_in_block", 7), ("switch_reference", 8 if world.kind == "image" else 0)]
     if world.pending_append is not None:
         d = world.pending_append
         world.pending_append = None
@@ -679,6 +694,144 @@ def gen_viewer_op(world, rng):
                 nums = [c for c in d.main_components if attr_kind(d, c) == "numerical"] or [d.pixel_component_ids[0]]
                 dc.new_subset_group(subset_state=nums[0] > rng.randint(0, 5), label=world.fresh("g"))
         return "new_group:many", call_many, None
+    if name == "remove_many_in_block":
+        # two or more removals of the same kind inside ONE hub delay block: all their messages come from the same sender
+        # with different payloads, and every one of them must arrive when the block closes
+        what = rng.choice(["data", "data", "data", "groups", "components"])
+        if what == "data" and len(in_dc) < 3:
+            # bring the rest of the pool in first so that two can leave and one stays
+            for d in out_dc:
+                try:
+                    dc.append(d)
+                except Exception:
+                    world.ctx.count("append_before_multi_removal_raised")
+            in_dc = list(dc)
+        if what == "data" and len(in_dc) >= 3:
+            shown = [d for d in in_dc if is_in(d, world.given)]
+            k = rng.randint(2, len(in_dc) - 1)
+            gone = (shown + [d for d in in_dc if not is_in(d, shown)])[:k] if rng.random() < 0.7 else rng.sample(in_dc, k)
+            world.ctx.count("delay_block_removing_datasets:%d" % min(len(gone), 3))
+            world.ctx.count("delay_block_removing_shown_datasets:%d" % min(len([d for d in gone if is_in(d, world.given)]), 3))
+
+            def call_rm_many():
+                with dc.hub.delay_callbacks():
+                    for d in gone:
+                        dc.remove(d)
+
+            def upd_rm_many(ok, ret):
+                world.given = [x for x in world.given if not is_in(x, gone)]
+                world.lonely = [x for x in world.lonely if not is_in(x.data, gone)]
+                world.hidden = [x for x in world.hidden if not is_in(x.data, gone)]
+                world.links = [t for t in world.links if not is_in(t[1], gone) and not is_in(t[2], gone)]
+            return "remove_many_in_block:data", call_rm_many, upd_rm_many
+        if what == "groups" or (what == "data"):
+            if len(groups) < 2:
+                def call_mk():
+                    for _ in range(3):
+                        nums = [c for c in in_dc[0].main_components if attr_kind(in_dc[0], c) == "numerical"] or [in_dc[0].pixel_component_ids[0]]
+                        dc.new_subset_group(subset_state=nums[0] > rng.randint(0, 5), label=world.fresh("g"))
+                if in_dc:
+                    world.pending_ops.append("remove_many_in_block")
+                    return "new_group:many", call_mk, None
+                return "noop", (lambda: None), None
+            k = rng.randint(2, len(groups))
+            gg = rng.sample(groups, k)
+            world.ctx.count("delay_block_removing_groups:%d" % min(k, 3))
+
+            def call_rm_groups():
+                with dc.hub.delay_callbacks():
+                    for g in gg:
+                        dc.remove_subset_group(g)
+            return "remove_many_in_block:groups", call_rm_groups, None
+        if in_dc:
+            d = rng.choice([x for x in in_dc if is_in(x, world.given)] or in_dc)
+            nums = [c for c in d.main_components if attr_kind(d, c) == "numerical"]
+            extra = [c for c in d.main_components if not is_in(c, nums)] + [c for c in d.derived_components if c.parent is d]
+            cands = extra + nums[2:]
+            if len(cands) >= 2:
+                cc = rng.sample(cands, rng.randint(2, min(3, len(cands))))
+                world.ctx.count("delay_block_removing_components:%d" % len(cc))
+
+                def call_rm_comps():
+                    with dc.hub.delay_callbacks():
+                        for c in cc:
+                            d.remove_component(c)
+                return "remove_many_in_block:components", call_rm_comps, None
+        return "noop", (lambda: None), None
+    if name == "switch_reference" and world.kind == "image":
+        # make the reference dataset change between one without and one with coordinates (explicit selection, or by
+        # removing the current reference), in both directions
+        st = v.state
+        ref = st.reference_data
+        big = [d for d in in_dc if d.ndim >= 2]
+        if ref is None or ref.ndim < 2:
+            if big:
+                d = rng.choice(big)
+
+                def upd_first(ok, ret):
+                    if ok and ret and not is_in(d, world.given):
+                        world.given.append(d)
+                        world.lonely = [x for x in world.lonely if x.data is not d]
+                        if not is_in(d, world.ever_given):
+                            world.ever_given.append(d)
+                world.pending_ops.append("switch_reference")
+                return "add_data", (lambda: v.add_data(d)), upd_first
+            return "noop", (lambda: None), None
+        has = ref.coords is not None
+        other_shown = [d for d in world.given if d.ndim >= 2 and (d.coords is not None) != has and is_in(d, in_dc)]
+        other_avail = [d for d in big if (d.coords is not None) != has and not is_in(d, world.given)]
+        if not other_shown and other_avail:
+            d = rng.choice(other_avail)
+
+            def upd_other(ok, ret):
+                if ok and ret and not is_in(d, world.given):
+                    world.given.append(d)
+                    world.lonely = [x for x in world.lonely if x.data is not d]
+                    if not is_in(d, world.ever_given):
+                        world.ever_given.append(d)
+            world.pending_ops.append("switch_reference")
+            return "add_data", (lambda: v.add_data(d)), upd_other
+        if other_shown:
+            d = rng.choice(other_shown)
+            direction = "coords_to_none" if has else "none_to_coords"
+            if rng.random() < 0.6:
+                world.ctx.count("image_reference_switch:%s:explicit" % direction)
+                world.pending_ops += ["select_world_axis"] + (["switch_reference"] if rng.random() < 0.6 else [])
+
+                def call_ref():
+                    st.reference_data = d
+                return "select:reference_data_other_coords_kind", call_ref, None
+            # the reference goes away: the viewer has to pick another one (only datasets of the other kind are left)
+            same_kind_shown = [x for x in world.given if x.ndim >= 2 and (x.coords is not None) == has and is_in(x, in_dc)]
+            world.ctx.count("image_reference_switch:%s:reference_removed" % direction)
+            world.pending_ops += ["select_world_axis"]
+
+            def call_rm_ref():
+                for x in same_kind_shown:
+                    v.remove_data(x)
+
+            def upd_rm_ref(ok, ret):
+                world.given = [x for x in world.given if not is_in(x, same_kind_shown)]
+                world.lonely = [x for x in world.lonely if not is_in(x.data, same_kind_shown)]
+                world.hidden = [x for x in world.hidden if not is_in(x.data, same_kind_shown)]
+            return "remove_data:reference_of_other_coords_kind_takes_over", call_rm_ref, upd_rm_ref
+        return "noop", (lambda: None), None
+    if name == "select_world_axis" and world.kind == "image":
+        st = v.state
+        h = rng.choice([("x_att_world", st.xw_att_helper), ("y_att_world", st.yw_att_helper)])
+        ch = [c for c in h[1].choices if not isinstance(c, ChoiceSeparator)]
+        if ch:
+            c = rng.choice(ch)
+            tn = h[0]
+            if tn == "x_att_world" and c is st.y_att_world:
+                tn = "x_att_world_to_current_y"
+            if tn == "y_att_world" and c is st.x_att_world:
+                tn = "y_att_world_to_current_x"
+
+            def call_sel():
+                setattr(st, h[0], c)
+            return "select:" + tn, call_sel, None
+        return "noop", (lambda: None), None
     if name == "add_link" and len(in_dc) >= 2:
         from glue.core.link_helpers import LinkSame, MultiLink
         from glue.core.component_link import ComponentLink
@@ -1191,8 +1344,14 @@ def apply_op(ctx, world, rng, trace):
         ctx.count("op_rejected:%s:%s" % (world.kind, name))
     except Exception as e:
         ok = False
+        first = not world.after_exception
         note_exception(world, name, e)
         ctx.count("op_raised:%s:%s:%s" % (world.kind, name, type(e).__name__))
+        if first and world.kind == "image" and (name.startswith("select:x_att_world") or name.startswith("select:y_att_world")
+                                                or name.startswith("select:reference_data")):
+            # the statement: the pickers always select one of the offered attributes - choosing an offered one must work
+            ctx.violation({"kind": "selection_of_offered_entry_raised", "viewer": "image", "op": name, "exc": type(e).__name__},
+                          {"error": str(e)[:300], "trace": trace[-8:]})
         if name.startswith("add_data") and world.kind == "image" and "scatter plot overlay" in str(e):
             ctx.count("image_first_dataset_1d_out_of_domain")
             world.after_exception = False
@@ -1396,9 +1555,9 @@ def run_picker_history(ctx, length):
         ops = ["append_h", "append_h", "remove_h", "flag", "flag", "addcomp", "rmcomp", "rmselected", "rmdata", "adddata",
                "select", "reorder", "rename", "delay_block", "set_multiple", "m_append", "m_remove", "m_set_multiple",
                "select_data", "relabel_data", "update_id", "coords", "all_flags", "ephemeral_dataset", "numeric_off",
-               "append_twice"]
+               "append_twice", "rm_many_in_block", "rm_many_in_block"]
         op = rng.choice(ops)
-        if single_with_dc and op in ("rmdata", "delay_block", "ephemeral_dataset"):
+        if single_with_dc and op in ("rmdata", "delay_block", "ephemeral_dataset", "rm_many_in_block"):
             op = "addcomp"
         variant = ""
         try:
@@ -1423,6 +1582,19 @@ def run_picker_history(ctx, length):
                 flag = rng.choice(["numeric", "categorical", "datetime", "pixel_coord", "world_coord", "derived", "none"])
                 setattr(h, flag, rng.random() < 0.5)
                 variant = flag
+            elif op == "rm_many_in_block":
+                # two or more datasets leave the collection inside one delay block: every picker must drop all of them
+                for d in pool:
+                    dc.append(d)
+                cands = [x for x in dc if x is not single]
+                gone = rng.sample(cands, rng.randint(2, min(3, len(cands)))) if len(cands) >= 2 else []
+                with dc.hub.delay_callbacks():
+                    for d in gone:
+                        dc.remove(d)
+                if with_dc:
+                    mine = [x for x in mine if not is_in(x, gone)]
+                mmine = [x for x in mmine if not is_in(x, gone)]
+                variant = str(len(gone))
             elif op == "all_flags":
                 val = rng.random() < 0.4
                 variant = "on" if val else "off"
@@ -1710,6 +1882,18 @@ def floors(counters, tier):
         out.append("fewer than 8 deletions of an ungrouped subset that has an equal twin")
     if sum(v for k, v in counters.items() if k.startswith("remove_dataset_with_multi_input_link:")) < 5:
         out.append("fewer than 5 removals of a dataset that takes part in a multi-input link")
+    if sum(counters.get("delay_block_removing_shown_datasets:%d" % k, 0) for k in (2, 3)) < 6:
+        out.append("fewer than 6 delay blocks removing two or more datasets shown in the viewer")
+    if sum(v for k, v in counters.items() if k.startswith("delay_block_removing_groups:")) < 4:
+        out.append("fewer than 4 delay blocks removing two or more subset groups")
+    if counters.get("picker_op:rm_many_in_block", 0) < 30:
+        out.append("fewer than 30 picker steps removing several datasets in one delay block")
+    for direction in ("none_to_coords", "coords_to_none"):
+        if sum(v for k, v in counters.items() if k.startswith("image_reference_switch:%s:" % direction)) < 3:
+            out.append("fewer than 3 image reference switches %s" % direction)
+    for k in ("coords", "no_coords"):
+        if counters.get("image_axis_picker_checks:" + k, 0) < 40:
+            out.append("fewer than 40 image axis picker checks with a reference %s" % k)
     if counters.get("picker_op:ephemeral_dataset", 0) < 10:
         out.append("fewer than 10 picker steps with short-lived datasets")
     return out
